@@ -849,13 +849,14 @@ theorem indexOf_spec (pat s : Bytes) (i : Nat) (h : indexOf pat s = some i) :
 /-! ### what the tag spans contain -/
 
 /-- What a span found by `extractTagTokensFromComment` holds: a tag span is `name:` for a name
-    that `isValidTagName` accepts; a value span is a non-empty string; the token's length is the
-    UTF-16 length of that text. -/
+    that `isValidTagName` accepts; a value span is a non-empty string without white space around
+    it (the result of a `strings.TrimSpace`); the token's length is the UTF-16 length of that
+    text. -/
 def SpanContent (cls : Classes) (comment : Bytes) (sp : TagSpan) : Prop :=
   (sp.ty = tyTag ∧ ∃ name, isValidTagName cls name = true ∧ sp.len = name.length + 1 ∧
       sp.len16 = u16lenB name + 1 ∧ (comment.drop sp.off).take sp.len = name ++ [colon]) ∨
-  (sp.ty = tyTagValue ∧ ∃ value, value ≠ [] ∧ sp.len = value.length ∧ sp.len16 = u16lenB value ∧
-      (comment.drop sp.off).take sp.len = value)
+  (sp.ty = tyTagValue ∧ ∃ value, value ≠ [] ∧ (∃ r, value = trimSpace r) ∧ sp.len = value.length ∧
+      sp.len16 = u16lenB value ∧ (comment.drop sp.off).take sp.len = value)
 
 /-- A slice of the comment that lies inside a part is a slice of the part. -/
 theorem slice_in_part (comment part tail : Bytes) (ps k m : Nat)
@@ -919,7 +920,7 @@ theorem extractStep_content (cls : Classes) (comment : Bytes) (st : Nat × List 
           · exact Or.inl h
           · rw [List.mem_singleton] at h; subst h; exact Or.inr hT
         · rw [List.mem_singleton] at h; subst h
-          refine Or.inr (Or.inr ⟨rfl, _, ?_, rfl, rfl, ?_⟩)
+          refine Or.inr (Or.inr ⟨rfl, _, ?_, ⟨_, rfl⟩, rfl, rfl, ?_⟩)
           · intro e; apply hvne; simp [e]
           · simp only [hname]
             have e1 : st.1 + leadWs part + colonIdx + 1 + leadWs (List.drop (colonIdx + 1) trimmed)
